@@ -185,6 +185,68 @@ def judge_chart(inp, obs, lr):
 
 
 # ------------------------------------------------------------------------------------------------
+# 1b. automatic chart choice (chart_index=None): correspondence
+# ------------------------------------------------------------------------------------------------
+def gen_auto(rng, n):
+    for _ in range(n):
+        dim = rng.choice([1, 2, 2, 3, 4, 5])
+        field = rfield(rng)
+        shape = rng.choice([[], [1], [2], [3], [2, 2]])
+        cnt = int(np.prod(shape)) if shape else 1
+        pz = rng.choice([0.0, 0.2, 0.45])
+        pts = [[Z(0) if rng.random() < pz else C.rz(rng, field, 6, 3) for _ in range(dim + 1)] for _ in range(cnt)]
+        if rng.random() < 0.15:          # no chart at all: every column has a zero somewhere
+            for c in range(dim + 1):
+                pts[rng.randrange(cnt)][c] = Z(0)
+        yield {"dim": dim, "field": field, "shape": shape, "pts": C.enc(pts, field)}
+
+
+def run_auto(inp):
+    f = inp["field"]
+    pts = C.dec(inp["pts"], f).reshape(tuple(inp["shape"]) + (inp["dim"] + 1,))
+    try:
+        aff, chart = P.affine_coords(pts.copy(), chart_index=None)
+        return {"aff": tolist(aff), "chart": int(chart)}
+    except GeometryError:
+        return {"aff": "GeometryError"}
+
+
+def lean_auto(inp, obs):
+    return [{"op": "c16.auto", "field": inp["field"], "xs": inp["pts"]}]
+
+
+def judge_auto(inp, obs, lr):
+    f, dim = inp["field"], inp["dim"]
+    cplx = f == "QI"
+    tags0 = {"field": f, "site": "affine_coords(chart_index=None)"}
+    if "exc" in obs:
+        return {"expected": "(affine, chart) or GeometryError", "observed": obs, "tags": dict(tags0, exc=obs["exc"]), "property_failure": True}
+    r = lr[0]
+    if "err" in r:
+        return {"expected": "model answer", "observed": r, "tags": dict(tags0, driver_err=r["err"])}
+    m = r["ok"]
+    pts = C.dec(inp["pts"], f).reshape(-1, dim + 1)
+    some_chart = bool(np.any(np.all(pts != 0, axis=0)))
+    if "err" in m:
+        if obs["aff"] != "GeometryError":
+            return {"expected": "GeometryError: no standard chart contains all the points", "observed": obs,
+                    "tags": dict(tags0, missed=True), "property_failure": not some_chart}
+        return None
+    if obs["aff"] == "GeometryError":
+        return {"expected": {"chart": m["chart"]}, "observed": "GeometryError", "tags": dict(tags0, rejected_valid=True),
+                "property_failure": some_chart}
+    if obs["chart"] != m["chart"]:
+        mins = np.min(np.abs(pts), axis=0)
+        if abs(mins[obs["chart"]] - mins[m["chart"]]) <= 1e-12 * (1 + mins[m["chart"]]):
+            return None           # a tie up to rounding: either chart is what the code promises
+        return {"expected": {"chart": m["chart"]}, "observed": obs["chart"], "tags": dict(tags0, chart=True),
+                "property_failure": bool(np.any(pts[:, obs["chart"]] == 0))}
+    if not same(asarr(obs["aff"], (-1, dim), cplx), C.dec(m["affine"], f).reshape(-1, dim)):
+        return {"expected": m["affine"], "observed": obs["aff"], "tags": dict(tags0, values=True)}
+    return None
+
+
+# ------------------------------------------------------------------------------------------------
 # 2. affine_linear_map / affine_translation: correspondence
 # ------------------------------------------------------------------------------------------------
 def gen_maps(rng, n):
@@ -981,6 +1043,10 @@ CLAUSES = [
            site="projective.affine_coords/projective_coords/Point.in_affine_chart", budget={"quick": 160, "thorough": 4000},
            what="affine_coords / projective_coords (function, Point method, Point constructor, column layout) and in_affine_chart vs the "
                 "model over ℚ and ℚ(i): dims 1-5, every chart, composite shapes, rescaled representatives incl. purely imaginary and zero chart coordinates"),
+    Clause("autochart_corr", "corr", gen_auto, run_auto, judge_auto, lean=lean_auto, site="projective.affine_coords(chart_index=None)",
+           budget={"quick": 100, "thorough": 2500},
+           what="automatic chart choice (argmax over charts of the smallest |coordinate|): chosen chart, coordinates, and GeometryError "
+                "exactly when no standard chart contains all points; ℚ and ℚ(i), composite shapes, many zero coordinates"),
     Clause("maps_corr", "corr", gen_maps, run_maps, judge_maps, lean=lean_maps,
            site="projective.affine_linear_map/affine_translation", budget={"quick": 120, "thorough": 3000},
            what="proj_data and images of points for affine_linear_map (both layouts) and affine_translation vs the model's block matrices, ℚ and ℚ(i)"),
